@@ -117,7 +117,7 @@ def s2(ctx, rep):
                     var = name
             if isinstance(v, ast.BoolOp) and isinstance(v.op, ast.And):
                 ok = any(x is sup[0] or (var and U(x) == var) for x in v.values)
-            elif isinstance(v, ast.Call) and fn_name(v) == "task_continues" and var and U(v.args[0]) == var:
+            elif isinstance(v, ast.Call) and fn_name(v) == "task_continues" and v.args and (v.args[0] is sup[0] or (var and U(v.args[0]) == var)):
                 ok = True   # RUSHDecider.task_continues returns False whenever its first argument is False (C03-S8)
             else:
                 ok = False
